@@ -40,6 +40,9 @@ def small_db_ops(rng, variant):
     return ops, hist, cfg
 
 
+BLOCK = 32768
+
+
 def served_ok(dump, hist):
     """every served (key, value) is a value that was written for that key"""
     if not dump.startswith("dump n="):
@@ -205,9 +208,23 @@ def random_damage(res, ctx, rng, idx):
         for _ in range(25):
             f, sz = rng.choice(files)
             seg = ["cpdir orig w"]
-            kind = rng.choice(["bytes", "trunc", "block", "zero-run"])
+            kind = rng.choice(["bytes", "trunc", "block", "zero-run", "trunc-at-block", "cutout"])
+            if kind == "trunc-at-block" and sz <= BLOCK:
+                kind = "trunc"
+            if kind == "cutout" and sz <= 64:
+                kind = "trunc"
             if kind == "trunc":
                 seg.append("trunc w %s %d" % (f, rng.randrange(sz)))
+            elif kind == "trunc-at-block":
+                # exactly on a block boundary: when the boundary lies between two chunks of one record no incomplete chunk is left
+                seg.append("trunc w %s %d" % (f, BLOCK * rng.randrange(1, (sz - 1) // BLOCK + 1)))
+            elif kind == "cutout":
+                # a piece of the file is missing and everything behind it moved up (a whole block, or a random range)
+                if sz > 2 * BLOCK and rng.random() < 0.6:
+                    seg.append("cutout w %s %d %d" % (f, BLOCK * rng.randrange(0, sz // BLOCK - 1), BLOCK))
+                else:
+                    o = rng.randrange(sz - 1)
+                    seg.append("cutout w %s %d %d" % (f, o, rng.randrange(1, min(sz - o, 70000))))
             elif kind == "bytes":
                 o = rng.randrange(sz)
                 for j in range(rng.choice([2, 3, 8])):
@@ -246,8 +263,10 @@ def random_damage(res, ctx, rng, idx):
                         bad = msg + " after %s damage" % kind
                         break
             if bad:
-                res.violation(bad, {"ops": setup + seg_ops})
-                break
+                aligned = kind == "cutout" and all(int(x) % BLOCK == 0 for x in seg_ops[1].split()[3:5])
+                if res.violation(bad, {"ops": setup + seg_ops}, key=("crc-valid-chunks-recombined" if aligned and " served " in bad else None)):
+                    break
+                continue
             if mo is not None:
                 for op, x, y in zip(seg_ops, seg_out, mo[a:z]):
                     if y != "?" and x != y:
@@ -327,3 +346,70 @@ def check_truncated_hinted(res, ctx, rng):
                     res.violation("correspondence broke after truncating the hinted file %s to %d bytes at `%s`: code=%s model=%s" % (f, n, op, x[:200], y[:200]),
                                   {"ops": setup + seg_ops, "code": x, "model": y, "correspondence": "corruption outcome"}, no_input=True)
                     break
+
+
+def check_structural(res, ctx, rng):
+    """damage that keeps every chunk intact (all checksums valid) but changes which chunks there are:
+    a record cut exactly at the block boundary between two of its chunks in an OLDER file, a whole block missing inside a
+    record, two full chunks of one record swapped.  Oracle: every served value was written for that key, no panic;
+    the model must predict the same outcome."""
+    nblk = rng.choice([3, 4, 5])
+    big = "p%d:%d" % (rng.randrange(1, 200), nblk * BLOCK + rng.randrange(0, 3000))
+    cfg = {"fs": 8 << 20, "sync": 0, "bps": 0, "idx": rng.choice([1, 2, 3]), "io": 0, "shards": 4}
+    cfgs = engine.open_line("w", cfg).split(" ", 2)[2]
+    setup = [engine.open_line("orig", cfg), "put 6b x6f6c64", "put 6b " + big, "put 78 p3:300", "close"]
+    hist = {b"k": {core.fmt_val(b"old"), core.fmt_val(core.val_bytes(big))}, b"x": {core.fmt_val(core.val_bytes("p3:300"))},
+            b"y": {core.fmt_val(core.val_bytes("p4:300"))}}
+    # older-file variant: the big record's file is rotated away (file-size limit below the record)
+    cfg2 = dict(cfg, fs=nblk * BLOCK // 2)
+    setup2 = [engine.open_line("orig2", cfg2), "put 6b x6f6c64", "put 6b " + big, "put 78 p3:300", "put 79 p4:300", "close"]
+    cfgs2 = engine.open_line("w", cfg2).split(" ", 2)[2]
+    cases = []
+    for b in range(1, nblk + 1):
+        cases.append(("cut-at-block-boundary/active", "orig", cfgs, ["trunc w 000000000.data %d" % (b * BLOCK)]))
+        cases.append(("cut-at-block-boundary/older", "orig2", cfgs2, ["trunc w 000000000.data %d" % (b * BLOCK)]))
+    for b in range(0, nblk):
+        cases.append(("missing-block", "orig", cfgs, ["cutout w 000000000.data %d %d" % (b * BLOCK, BLOCK)]))
+    for b in range(1, nblk - 1):
+        cases.append(("swapped-full-chunks", "orig", cfgs, ["swapblk w 000000000.data %d %d %d" % (b * BLOCK, (b + 1) * BLOCK, BLOCK)]))
+    ops = setup + setup2
+    spans = []
+    for name, src, c, dmg in cases:
+        seg = ["cpdir %s w" % src] + dmg + ["open w " + c, "get 6b", "dump", "fold", "merge", "close", "rmdir w", "rmdir w-merge"]
+        spans.append((len(ops), len(ops) + len(seg), name))
+        ops += seg
+    base = ctx.scratch.fresh()
+    try:
+        o = run_impl(ops, base, timeout=300)
+    finally:
+        ctx.scratch.drop(base)
+    mo = run_model(core.model_ops(ops, core.LAST_MERGE_ORDERS)) if ctx.model_ok else None
+    for a, z, name in spans:
+        res.evaluations += 1
+        res.count("structural:" + name.split("/")[0])
+        seg_ops, seg_out = ops[a:z], o[a:z]
+        res.distinct.add("st:%s:%s" % (seg_ops[1], seg_out[2] if len(seg_out) > 2 else ""))
+        bad = None
+        for op, out in zip(seg_ops, seg_out):
+            if out.startswith(("panic:", "died", "dead")):
+                bad = "%s -> %s after %s (%s)" % (op, out, name, seg_ops[1])
+                break
+            if op == "dump":
+                msg = served_ok(out, hist)
+                if msg:
+                    bad = msg + " after %s (%s): every chunk checksum is valid" % (name, seg_ops[1])
+                    break
+        if bad:
+            # whole blocks changed places or are missing and every remaining chunk is intact: the recorded format weakness
+            key = "crc-valid-chunks-recombined" if name in ("swapped-full-chunks", "missing-block") and " served " in bad else None
+            if res.violation(bad, {"ops": (setup if "orig2" not in seg_ops[0] else setup2) + seg_ops}, key=key):
+                break
+            continue
+        if mo is not None:
+            for op, x, y in zip(seg_ops, seg_out, mo[a:z]):
+                if y != "?" and x != y:
+                    res.violation("correspondence broke under structural damage (%s, %s) at `%s`: code=%s model=%s" % (name, seg_ops[1], op, x[:200], y[:200]),
+                                  {"ops": (setup if "orig2" not in seg_ops[0] else setup2) + seg_ops, "code": x, "model": y, "correspondence": "corruption outcome"}, no_input=True)
+                    break
+            else:
+                res.count("model_agreed_structural")
